@@ -271,3 +271,45 @@ Example C13_check_loc_nonvacuous :
   first_fault SWit.c [] LWit.e_inner (1%Z, 6%Z) /\ snd (check SWit.c LWit.e_inner) = Some ((1%Z, 6%Z), CMismatch2) /\
   first_fault SWit.c [] LWit.e_closure (1%Z, 11%Z) /\ snd (check SWit.c LWit.e_closure) = Some ((1%Z, 11%Z), CTooMany).
 Proof. exact (conj LWit.e_inner_fault (conj LWit.e_inner_reported (conj LWit.e_closure_fault LWit.e_closure_reported))). Qed.
+
+(* ---- GenSource: the functions of file/{source,error,location}.go (NewSource, updateOffsets, findLineOffset,
+   Snippet, Content, findLine, Location.Empty, Error.format, Error.Error, Error.Bind) are REGENERATED on every
+   run (gen/GenSource.v, DSL + interpreter File/SourceRules.v) and proved equal to the model File/Source.v,
+   one lemma per function (Bridge/BrSource.v).  The statements are `Definition .._statement : Prop` in
+   Bridge/BrSource.v; nothing is imported here (File/SourceRules.v has its own `eval`, `VStr`, ...). ---- *)
+Require X.Bridge.BrSource.
+
+(* every statement and expression of the ten functions is inside the DSL *)
+Theorem C13_source_code_recognised : X.Bridge.BrSource.gensource_all_recognised = true.
+Proof. exact X.Bridge.BrSource.gensource_recognised. Qed.
+Print Assumptions C13_source_code_recognised.
+
+(* for every fuel F: interpreting the regenerated NewSource / updateOffsets / findLineOffset / Snippet / Content /
+   findLine / Empty / format / Error / Bind gives newSource / updateOffsets / findLineOffset / snippet / contents /
+   findLine / the (0,0) test / msg ++ format_suffix / the same / bind, for all arguments that are Go values
+   (line and column are ints, a slice length is an int, Column < MaxInt for Error(), at most 2^31 lines for
+   NewSource, F above the number of runes for the loop of Bind) *)
+Theorem C13_model_source_is_source_code : X.Bridge.BrSource.model_source_is_source_code_statement.
+Proof. exact X.Bridge.BrSource.model_source_is_source_code. Qed.
+Print Assumptions C13_model_source_is_source_code.
+
+(* NewSource, then Bind, then Error() of the regenerated code produce exactly `render c l` of File/Source.v *)
+Theorem C13_render_is_source_code : X.Bridge.BrSource.render_is_source_code_statement.
+Proof. exact X.Bridge.BrSource.render_is_source_code. Qed.
+Print Assumptions C13_render_is_source_code.
+
+(* the struct declarations are the ones the model's records stand for; the only functions not read are the
+   encoding/json glue MarshalJSON / UnmarshalJSON *)
+Theorem C13_source_decls_are_model : X.Bridge.BrSource.source_decls_statement.
+Proof. exact X.Bridge.BrSource.source_decls_are_model. Qed.
+Print Assumptions C13_source_decls_are_model.
+
+(* without `Column < MaxInt` the format statement is false of the Go code (Column+1 wraps, the model does not) *)
+Theorem C13_error_format_full_statement_refuted : ~ X.Bridge.BrSource.format_full_statement.
+Proof. exact X.Bridge.BrSource.format_full_statement_refuted. Qed.
+Print Assumptions C13_error_format_full_statement_refuted.
+
+(* non-vacuity: a three-line text with a tab and a two-byte rune; caret line, caret dropped after the
+   two-byte rune, the text of Error(); all hypotheses of the theorems above hold for it *)
+Example C13_gensource_examples : X.Bridge.BrSource.gensource_examples_statement.
+Proof. exact X.Bridge.BrSource.gensource_examples. Qed.
